@@ -2007,10 +2007,12 @@ impl Zeroconf {
                     );
                     service_info.set_status(if_index, ServiceStatus::Announced);
                 } else {
-                    for timer in dns_registry.new_timers.drain(..) {
-                        self.timers.push(Reverse(timer));
-                    }
                     service_info.set_status(if_index, ServiceStatus::Probing);
+                }
+
+                // Set timers for the probes added, if any.
+                for timer in dns_registry.new_timers.drain(..) {
+                    self.timers.push(Reverse(timer));
                 }
             }
         }
@@ -2136,10 +2138,13 @@ impl Zeroconf {
             if announced {
                 info.set_status(intf.index, ServiceStatus::Announced);
             } else {
-                for timer in dns_registry.new_timers.drain(..) {
-                    self.timers.push(Reverse(timer));
-                }
                 info.set_status(*if_index, ServiceStatus::Probing);
+            }
+
+            // Set timers for the probes added, if any. Note that one IP version
+            // could be announced while the other one started probing.
+            for timer in dns_registry.new_timers.drain(..) {
+                self.timers.push(Reverse(timer));
             }
         }
 
@@ -2259,6 +2264,11 @@ impl Zeroconf {
                         info.set_status(*if_index, ServiceStatus::Announced);
                     }
                 }
+            }
+
+            // Set timers for the probes added by the announcing above, if any.
+            for timer in dns_registry.new_timers.drain(..) {
+                self.timers.push(Reverse(timer));
             }
         }
 
@@ -3820,12 +3830,26 @@ impl Zeroconf {
         };
 
         let announced_v4 = if let Some(sock) = self.ipv4_sock.as_ref() {
-            announce_service_on_intf(dns_registry, info, intf, &sock.pktinfo, self.port)?
+            let result =
+                announce_service_on_intf(dns_registry, info, intf, &sock.pktinfo, self.port);
+
+            // Set timers for the probes added, if any.
+            for timer in dns_registry.new_timers.drain(..) {
+                self.timers.push(Reverse(timer));
+            }
+            result?
         } else {
             false
         };
         let announced_v6 = if let Some(sock) = self.ipv6_sock.as_ref() {
-            announce_service_on_intf(dns_registry, info, intf, &sock.pktinfo, self.port)?
+            let result =
+                announce_service_on_intf(dns_registry, info, intf, &sock.pktinfo, self.port);
+
+            // Set timers for the probes added, if any.
+            for timer in dns_registry.new_timers.drain(..) {
+                self.timers.push(Reverse(timer));
+            }
+            result?
         } else {
             false
         };
